@@ -509,6 +509,21 @@ def shards(ctx):
             if cfg == "asm" or l in (17, 33):
                 out.append({"sub": "params", "cfg": cfg, "l": l, "sig": l % 2 == 1, "corrupt": False})
         out.append({"sub": "lq", "cfg": cfg})
+    # secret keys with MANY free slots (all l slots free after keygen of the empty list; l - 2 after fixing the first and the last): the
+    # slot count of a key is an operand of marshal / length accounting / unmarshal just like the parameters' - every l up to 70 in the
+    # thorough tier, 20 (the deployed configuration) with and without signatures, and keys whose slot area crosses 64 KiB (a 16-bit
+    # offset or length breaks there: 657 slots uncompressed, 1262 compressed)
+    if ctx.tier == "quick":
+        big = [(8, True), (17, False), (20, True), (20, False), (21, True), (33, True), (65, False), (700, True), (1300, False)]
+    else:
+        big = [(l, l % 2 == 0) for l in range(4, 71)] + [(20, False), (21, True), (100, True), (255, False), (256, True), (257, False), (656, True), (657, False), (700, True),
+                                                        (1261, False), (1262, True), (1300, False), (1400, True)]
+    vals0 = wk.values(ctx.seed)
+    for l, sig in big:
+        for ents in ([], [[0, "v1"], [l - 1, "v2"]]):
+            op = ["keygen", {"e": ents, "omit": False}]
+            st = wk.model_step(None, op, l, vals0)
+            out.append({"sub": "key", "cfg": "asm", "l": l, "sig": sig, "history": [op], "state": [st[0], list(st[1])], "corrupt": False, "big": True})
     U = c11.universe(ctx)
     vals = wk.values(ctx.seed)
     reach = wk.reachable(U["l"], U["names"], vals, witnesses=1)
